@@ -18,7 +18,7 @@ TECHNIQUE = ('property-based testing (Hypothesis), metamorphic relations over ge
              'to_dict() before == after every WNTRSimulator and EpanetSimulator run; results of a rerun after '
              'reset_initial_values(), of a deepcopy and of a JSON-reloaded model equal those of the first run')
 RULE = ('Generated model (netgen network with tanks, pumps, valves, CV pipes, leaks, DD/PDD + simple controls on link '
-        'status, valve setting and pump speed conditioned on tank level / time / clock time + rules with ELSE) and a '
+        'status, valve setting and pump speed conditioned on tank level / time / clock time + rules with ELSE; in one case in four the initial statuses of pipes and pumps are passed to add_pipe/add_pump as ints) and a '
         'generated history of 2-5 operations from {W: reset if needed and run WNTRSimulator, E: run EpanetSimulator, '
         'C: deepcopy then run, J: JSON round trip then run, P: pickle round trip then run, R: run a copy whose numeric report '
         'step is shorter than the hydraulic step (dictionary check only)}, starting with W. Non-trivial '
@@ -38,7 +38,7 @@ OPS = ['W', 'E', 'C', 'J', 'P', 'R', 'S']
 
 @st.composite
 def strategy(draw, tier='quick'):
-    base = draw(c10.strategy(tier))
+    base = draw(c10.strategy(tier, curve_controls=False))   # C11's statement names status and setting controls
     sp = base['spec']
     o = sp['opts']
     o['rep'] = 'ALL'
@@ -61,6 +61,8 @@ def strategy(draw, tier='quick'):
             extra.append({'kind': 'time', 'at': o['hyd'] * draw(st.integers(0, max(1, o['duration'] // o['hyd']))),
                           'link': p['name'], 'attr': 'base_speed', 'value': draw(st.sampled_from([0.8, 0.9, 1.1]))})
     sp['controls'] = sp['controls'] + extra
+    if draw(st.integers(0, 3)) == 0:
+        sp['int_status'] = True       # pipes and pumps get their initial status as an int (accepted by add_pipe/add_pump)
     n = draw(st.integers(1, 3))
     ops = ['W'] + [draw(st.sampled_from(OPS)) for _ in range(n)]
     return {'spec': sp, 'rules': base['rules'], 'ops': ops}
@@ -116,6 +118,8 @@ def check(case):
     o = sp['opts']
     hw = o['hw_approx']
     tags = netgen.features(sp) + ['op:' + x for x in case['ops']]
+    if sp.get('int_status'):
+        tags.append('initial_status_as_int')
     if case['rules']:
         tags.append('rules')
     for c in sp['controls']:
@@ -237,6 +241,18 @@ def check(case):
         if ref is None:
             if not r.ok:
                 incon = 'first run did not converge'
+                if op == 'W':
+                    # a model that cannot be simulated as built must not become simulable by reset_initial_values():
+                    # the rerun after a reset converges although two independent fresh builds do not (twice = not noise)
+                    wn.reset_initial_values()
+                    r2 = run(wn, reuse=False)
+                    if r2.exception is None and r2.ok:
+                        nz = S.run_wntr(c10.build(case), hw_approx=hw, tol=1e-8, maxiter=1500)
+                        if nz.exception is None and not nz.ok:
+                            return fail('results/first_run_fails_rerun_after_reset_converges',
+                                        'the first run of the model as built did not converge (last reported time %s, again '
+                                        'on a second fresh build), but after reset_initial_values() the same model runs to '
+                                        'the end (history %s)' % (r.times[-1] if len(r.times) else None, case['ops']), tags)
                 break
             ref = r
             continue
